@@ -193,8 +193,9 @@ def batch_run(cases):
             res.harness_error("crash on %s: %s" % (json.dumps(c)[:300], traceback.format_exc()[-1200:]))
             continue
         if "rejected" in info:
-            res.reject(info["rejected"][:80])
-            res.evaluations += 1
+            # every generated tree is a valid bundle definition: "flattens to one scalar port per leaf" leaves no room for a refusal
+            res.fail("valid_bundle_refused", c, "building / exporting a module with this bundle instance raised %s" % info["rejected"])
+            res.case(c, nontrivial(c), feats(c))
             continue
         for sig, detail in fails:
             res.fail(sig, c, detail)
